@@ -157,44 +157,10 @@ fn c07_local_header_checksum_coverage() {
     kani::cover!(off % 4 == 1 && lane == 0, "rotated lanes");
 }
 
-// ---- load path: SegmentHeader::from_bytes (16 reconstruction headers at the start of a .data file)
-// The crate has no production caller of validate_checksums; the segment-header loader (and the
-// archive read path, which skips the 30 bytes when "BLTE" follows) take local headers as read.
-macro_rules! segment_header_load {
-    ($name:ident, $k:expr) => {
-        #[kani::proof]
-        #[kani::unwind(28)]
-        #[kani::stub(cascette_crypto::jenkins::hashlittle, ideal::hashlittle_uf32)]
-        fn $name() {
-            use cascette_client_storage::storage::segment::SegmentHeader;
-            const K: usize = $k;
-            let q: usize = kani::any();
-            kani::assume(q < 22);
-            let v: u8 = kani::any();
-            let seg = SegmentHeader::zeroed();
-            let mut bytes = seg.to_bytes();
-            // corrupt inside header K only (the other 15 headers stay concrete)
-            let mut hb = [0u8; LOCAL_HEADER_SIZE];
-            hb.copy_from_slice(&bytes[K * LOCAL_HEADER_SIZE..(K + 1) * LOCAL_HEADER_SIZE]);
-            kani::assume(v != hb[q]);
-            hb[q] = v;
-            bytes[K * LOCAL_HEADER_SIZE..(K + 1) * LOCAL_HEADER_SIZE].copy_from_slice(&hb);
-            kani::cover!(q == 0, "first key byte");
-            match SegmentHeader::from_bytes(&bytes) {
-                Some(s) => assert!(
-                    s.bucket_header(K as u8).validate_checksums(K * LOCAL_HEADER_SIZE),
-                    "KF: SegmentHeader::from_bytes hands on a local header whose checksums do not match (validate_checksums has no caller on any load path)"
-                ),
-                None => {}
-            }
-        }
-    };
-}
-// @family prop=C07 tier=quick timeout=900 role=segment-header-load-path
-// @bounds segment header block written by the real writer (SegmentHeader::zeroed().to_bytes(), 16 headers); one byte of the key/size/flags bytes 0..22 of bucket K's header (K in the name; position symbolic) overwritten with a symbolic different value
-// @encodes cascette_client_storage::storage::segment::SegmentHeader::from_bytes, cascette_client_storage::storage::segment::SegmentHeader::to_bytes, cascette_client_storage::storage::segment::SegmentHeader::zeroed, cascette_client_storage::storage::segment::SegmentHeader::bucket_header, cascette_client_storage::storage::local_header::LocalHeader::validate_checksums
-// @assumes hashlittle replaced by a plain uninterpreted function
-// @catches (known finding) loader that hands on local headers without validating their checksums
-segment_header_load!(c07_segment_header_load_path_k0, 0);
-segment_header_load!(c07_segment_header_load_path_k15, 15);
-// @end
+// ---- load path (no harness) ------------------------------------------------------------------------
+// LocalHeader::validate_checksums has no caller outside the unit tests: SegmentHeader::from_bytes
+// (storage/segment.rs) and the archive read path (storage/archive_file.rs, which skips the 30 bytes
+// when "BLTE" follows) take local headers as read.  A harness over SegmentHeader::zeroed() ->
+// to_bytes -> corrupt -> from_bytes was tried and dropped: 32 LocalHeader::new calls cost > 15 min of
+// symbolic execution (with an uninterpreted hash: symex 836 s, then a counterexample in 0.07 s, i.e.
+// the loader hands the corrupted header on; with the real hash: not finished in 900 s).
